@@ -112,6 +112,8 @@ for d in sorted(glob.glob(os.path.join(V, "seeded", "*"))):
         return "MISSED"
     summ = " ".join(str(m.get("summary", "")).split())
     needs = " ".join(str(m.get("needs", "")).split())
+    summ = summ.replace("|", "¦")
+    needs = needs.replace("|", "¦")
     if len(summ) > 260:
         summ = summ[:257] + "…"
     if len(needs) > 200:
